@@ -416,7 +416,9 @@ def finding_key(fn, var, what, state, F, claims, bad_long=frozenset()):
     cs = callees_of(fn, F)
     if var["cls"] == "name-empty" and not accepted and "cgi_check_strlen" in cs and (fn, var["param"]) not in bad_long:
         return "cgi_check_strlen:string:name-empty"      # over-long names are refused cleanly: the validator runs, and lets "" through
-    if changed and not accepted and state == "bare" and fam != "name-empty":
+    if fn == "cgio_new_node" and changed and not accepted:
+        return "cgio_new_node:args:node-created-before-validation"     # create, then set label / dimensions / data, no roll-back
+    if changed and not accepted and fam != "name-empty" and family(var["cls"]) in ("index", "range", "enum", "datatype", "handle"):
         if "cgi_get_zcoorGC" in cs:
             return "cgi_get_zcoorGC:Z:container-created-before-validation"
         if "cgi_get_particle_pcoorPC" in cs:
